@@ -319,12 +319,36 @@ def _threaded(ctx: Ctx) -> None:
         if isinstance(c, ast.Call) and (last_attr(c) == "start" or (isinstance(c.func, ast.Name) and c.func.id in outer.nested)):
             pub |= ocfg.done(c)
     after_pub = ocfg.reach(pub) if pub else set()
+    # staleness discriminator(s) of the timer callback: state written by arm / cancel / accept that the callback's decision reads
+    ccfg = cfg_of(cb.node)
+    fset = one([n for n in walk_scope(cb.node) if const_assign(n, FLAG, True)], "flag = True", cb)
+    cb_ifs = [n for n in walk_scope(cb.node) if isinstance(n, (ast.If, ast.While))]
+    written_elsewhere: set[str] = set()
+    for fi in scope:
+        if fi is cb:
+            continue
+        fcfg = cfg_of(fi.node)
+        for n in walk_scope(fi.node):
+            if isinstance(n, ast.Name) and isinstance(n.ctx, ast.Store):
+                if fi is outer and not (fcfg.attempt(n) & after_pub):
+                    continue
+                if fi is not outer and not _is_nonlocal(fi, n.id):
+                    continue
+                written_elsewhere.add(n.id)
+    written_elsewhere -= {COUNT, FLAG}
+    deciding = [n for n in cb_ifs if _discriminates(ccfg, n, fset)]
+    read = {x.id for t in deciding for x in ast.walk(t.test) if isinstance(x, ast.Name)}
+    for g in sorted(read & written_elsewhere):
+        table.setdefault(g, "timer generation")
     n_acc = 0
     for fi in scope:
         ls = lockset(fi, LOCK)
         fcfg = cfg_of(fi.node)
         for var, what in table.items():
             accs = name_nodes(fi.node, var)
+            if what == "timer generation" and fi is cb:
+                # an unlocked early-out read is harmless when the test is repeated in the deciding section (clause below)
+                accs = [a for a in accs if not isinstance(a.ctx, ast.Load)]
             if fi is outer:
                 accs = [a for a in accs if fcfg.attempt(a) & after_pub]  # initialisation before any thread/timer exists is private
             if not accs:
@@ -357,9 +381,6 @@ def _threaded(ctx: Ctx) -> None:
 
     # ---- the flag is set only when the count was just seen to be zero, in one critical section
     cls_ = lockset(cb, LOCK)
-    ccfg = cfg_of(cb.node)
-    fset = one([n for n in walk_scope(cb.node) if const_assign(n, FLAG, True)], "flag = True", cb)
-    cb_ifs = [n for n in walk_scope(cb.node) if isinstance(n, (ast.If, ast.While))]
     busy = edges_under(ccfg, cb.node, {COUNT: 1}, only=cb_ifs)
     idle = edges_under(ccfg, cb.node, {COUNT: 0}, only=cb_ifs)
     if not busy:
@@ -396,25 +417,19 @@ def _threaded(ctx: Ctx) -> None:
                   "makes the loop exit at its next timeout although the accepted connection is being served (and the worker vanishes right after it)")
 
     # ---- stale timer callback: the guard of the flag-set must read state written by arm / cancel / accept
-    written_elsewhere: set[str] = set()
-    for fi in scope:
-        if fi is cb:
-            continue
-        fcfg = cfg_of(fi.node)
-        for n in walk_scope(fi.node):
-            if isinstance(n, ast.Name) and isinstance(n.ctx, ast.Store):
-                if fi is outer and not (fcfg.attempt(n) & after_pub):
-                    continue
-                if fi is not outer and not _is_nonlocal(fi, n.id):
-                    continue
-                written_elsewhere.add(n.id)
-    written_elsewhere -= {COUNT, FLAG}
-    deciding = [n for n in cb_ifs if _discriminates(ccfg, n, fset)]
-    read = {x.id for t in deciding for x in ast.walk(t.test) if isinstance(x, ast.Name)}
     ctx.check(bool(read & written_elsewhere), "RF-LOCK", "stale-timer-callback-recognised", cb, fset,
               ok=f"the callback's decision reads {sorted(read & written_elsewhere)}, which arm/cancel/accept update: a superseded callback can tell it is stale",
               bad="Timer.cancel() cannot stop a callback that has already fired and is waiting for the state lock; the callback decides on the connection count alone, so after a "
               "short connection came and went (idle timer re-armed) the superseded callback still requests shutdown -- idle_timeout early, right after a connection")
+
+    gen_tests = [t for t in deciding if {x.id for x in ast.walk(t.test) if isinstance(x, ast.Name)} & written_elsewhere]
+    if gen_tests:
+        reg_set = cls_.with_region(fset, LOCK)
+        same_cs = reg_set is not None and any(cls_.with_region(t.test, LOCK) is reg_set for t in gen_tests)
+        ctx.check(same_cs, "RF-LOCK", "staleness-test-and-flag-set-in-one-section", cb, gen_tests[0],
+                  ok="the callback tests whether it is still the current timer in the critical section that requests the shutdown",
+                  bad="the callback tests whether it is the current timer outside the critical section that requests the shutdown: it can pass the test, wait for the state lock while a "
+                  "connection comes and goes (timer re-armed), then request shutdown as a superseded callback -- idle_timeout early, right after a connection")
 
     # ---- accept loop exits
     loop = one([n for n in walk_scope(outer.node) if isinstance(n, ast.While) and any(isinstance(c, ast.Call) and last_attr(c) == "accept" for c in walk_scope(n))], "accept loop", outer)
